@@ -21,7 +21,7 @@ import (
 func init() { register("C11", checkC11) }
 
 func checkC11(c *core.Ctx) {
-	c.Explainf("C11 (decided clause: the discipline of the pending 'next record' attributes; faithfulness of a parser as a whole is behaviour and is NOT decided). R1: for the definition loop of ReadFile and the member loops of readEnum/readStruct/readMessage/readUnion, the loop-carried locals that hold a pending attribute (comment lines, opcode, readonly, flags; per-member comment, tags, deprecation) form a typestate {clear, maybe-set}; on every CFG path (go/cfg, with refinement on `if v`/`if v != 0` guards, iterated to a fixpoint over the loop) an iteration that completed a definition reaches the loop head with every pending attribute clear — an attribute annotates one definition and no other. R1b: an iteration that matched a token but completed no definition does not clear a pending opcode/readonly/flags/deprecation (the attribute would be lost before its definition). R2: every definition kind either consumes or rejects each of opcode and flags (kind x attribute matrix). R3: evaluateBitflagExpr instantiates the evaluator with the integer type of exactly the signedness and width it dispatches on, and covers the image of decodeIntegerType. R4: skipFollowingWhitespace skips every byte the token tree treats as insignificant. R5: whether a member is deprecated is recorded by a pure flag set in the clause that called readDeprecated, never derived from the message text (`[deprecated(\"\")]` is well formed). R6: the tokenizer uses no bufio primitive bounded by the buffer size (ReadSlice, ReadLine, Peek, Scanner): comments and literals have no length limit (positive control: fixtures/limitedread). R7: in numberToken's chain of byte classes, for every letter a-f/A-F and every assignment of the boolean locals with the hex flag(s) set, the first condition that holds is the hex-digit arm's (finite decision table over the conditions, the package's one-line predicates inlined). NOT decided: token-to-field mapping, source order, layout independence beyond R4.")
+	c.Explainf("C11 (decided clause: the discipline of the pending 'next record' attributes; faithfulness of a parser as a whole is behaviour and is NOT decided). R1: for the definition loop of ReadFile and the member loops of readEnum/readStruct/readMessage/readUnion, the loop-carried locals that hold a pending attribute (comment lines, opcode, readonly, flags; per-member comment, tags, deprecation) form a typestate {clear, maybe-set}; on every CFG path (go/cfg, with refinement on `if v`/`if v != 0` guards, iterated to a fixpoint over the loop) an iteration that completed a definition reaches the loop head with every pending attribute clear — an attribute annotates one definition and no other. R1b: an iteration that matched a token but completed no definition does not clear a pending opcode/readonly/flags/deprecation (the attribute would be lost before its definition). R2: every definition kind either consumes or rejects each of opcode and flags (kind x attribute matrix). R3: evaluateBitflagExpr instantiates the evaluator with the integer type of exactly the signedness and width it dispatches on, and covers the image of decodeIntegerType. R4: skipFollowingWhitespace skips every byte the token tree treats as insignificant. R5: whether a member is deprecated is recorded by a pure flag set in the clause that called readDeprecated, never derived from the message text (`[deprecated(\"\")]` is well formed). R6: the tokenizer uses no bufio primitive bounded by the buffer size (ReadSlice, ReadLine, Peek, Scanner): comments and literals have no length limit (positive control: fixtures/limitedread). R7: in numberToken's chain of byte classes, for every letter a-f/A-F and every assignment of the boolean locals with the hex flag(s) set, the first condition that holds is the hex-digit arm's (finite decision table over the conditions, the package's one-line predicates inlined). R8: every loop of parse_expr.go that looks for the `)` closing a group also looks at `(` and keeps a depth count. NOT decided: token-to-field mapping, source order, layout independence beyond R4.")
 	p := loadRepo(c)
 	if p == nil {
 		return
@@ -46,6 +46,7 @@ func checkC11(c *core.Ctx) {
 	deprecationIndependent(c, p, "R5")
 	limitedBufio(c, p, "R6")
 	hexLettersAreDigits(c, p)
+	groupScansCountNesting(c, p)
 }
 
 // whitespaceAgreement: R4. Two places decide what is insignificant
@@ -1177,4 +1178,64 @@ func hexLettersAreDigits(c *core.Ctx, p *load.Prog) {
 	c.Count("number_classification_states", nStates)
 	c.Check("R7", "inside a hex literal every letter a-f/A-F is taken as a digit", p.Pos(fd.Pos()), bad == "",
 		bad+": a hex literal that contains that letter (`0x1e`, `0xBEEFCAFE`, an opcode) is mis-read — as an unfinished exponent, for instance — and a well-formed schema is rejected or read with another value")
+}
+
+// groupScansCountNesting: R8. A flag expression may nest parentheses; the
+// scan that looks for the `)` closing a group therefore has to count the `(`
+// it passes. Every loop of parse_expr.go that compares a token's kind with
+// tokenKindCloseParen must also compare with tokenKindOpenParen and both
+// raise and lower a counter: a scan that stops at the first `)` cuts
+// `((A | B) & 3) | C` after `B` and rejects a well-formed schema.
+func groupScansCountNesting(c *core.Ctx, p *load.Prog) {
+	pkg := p.Bebop()
+	n := 0
+	for _, fd := range funcsOfFiles(p, pkg, "parse_expr.go") {
+		k := 0
+		ast.Inspect(fd.Body, func(nd ast.Node) bool {
+			loop, ok := nd.(*ast.ForStmt)
+			if !ok {
+				return true
+			}
+			closes, opens, inc, dec := false, false, false, false
+			ast.Inspect(loop, func(m ast.Node) bool {
+				switch x := m.(type) {
+				case *ast.Ident:
+					if x.Name == "tokenKindCloseParen" {
+						closes = true
+					}
+					if x.Name == "tokenKindOpenParen" {
+						opens = true
+					}
+				case *ast.IncDecStmt:
+					// the index of the scan itself is also incremented: a depth
+					// counter is one that is decremented as well
+					if x.Tok == token.DEC {
+						dec = true
+					} else {
+						inc = true
+					}
+				case *ast.AssignStmt:
+					if x.Tok == token.SUB_ASSIGN {
+						dec = true
+					}
+					if x.Tok == token.ADD_ASSIGN {
+						inc = true
+					}
+				}
+				return true
+			})
+			if !closes {
+				return true
+			}
+			n++
+			k++
+			c.Check("R8", fmt.Sprintf("%s: the scan #%d for a closing parenthesis counts nesting", fd.Name.Name, k), p.Pos(loop.Pos()), opens && inc && dec,
+				fmt.Sprintf("the loop looks for tokenKindCloseParen (compares with tokenKindOpenParen: %v, raises a counter: %v, lowers one: %v): without a depth count the scan stops at the first `)` and a nested group such as `((A | B) & 3) | C` is cut in the middle — a well-formed [flags] expression is rejected or mis-read", opens, inc, dec))
+			return true
+		})
+	}
+	c.Count("paren_group_scans", n)
+	if n == 0 {
+		c.Undecide("parse_expr.go: no loop scans for a closing parenthesis: how groups are delimited is not recognised")
+	}
 }
